@@ -3,7 +3,7 @@
    real OS processes under one schedule: per gated call an event
      [p, a, c,                      who passed which gate; the value randrange handed out
       obs |-> the shared state found afterwards (directory listings, pin target, attachment,
-              mailbox lock file, bitmap length and bits, lock holder),
+              mailbox lock file, bitmap length and bits, holders of the lockf lock and the mutex),
       st  |-> per participant: ph, inst, eth, win, tab as the process reports them]
 
    VSpec - THE VERDICT.  The state is bound to the observation after every event and the four
@@ -11,7 +11,8 @@
            <<"VERDICT", trace, event, violated invariants>> for every observed state that
            breaks the property and <<"HANDLE", trace, event>> where a running participant's own
            table handle is not the attached dispatcher's table (reported separately).
-   CSpec - conformance of the protocol model: every event must be the step the model predicts
+   CSpec - conformance of the protocol model (with the switches of the cfg: the repaired protocol
+           Mutex = LockedInit = TRUE): every event must be the step the model predicts
            for that participant (same gate, the observed random value a possible one), and the
            model's successor state must equal the observation.  Shows that the schedules TLC
            explores are schedules of the real code; not a verdict.                           *)
@@ -27,7 +28,7 @@ ShOf(ob) == [lockdir |-> [ex |-> ob.lockdir.ex, m |-> Range(ob.lockdir.m)],
              pin |-> ob.pin, att |-> [o |-> ob.att.o, t |-> ob.att.t],
              mbx |-> ob.mbx,
              fm |-> [ex |-> ob.fm.ex, len |-> ob.fm.len, bits |-> Range(ob.fm.bits)],
-             holder |-> ob.holder]
+             holder |-> ob.holder, mutex |-> ob.mutex]
 Seen(L, s) == [L EXCEPT !.ph = s.ph, !.inst = s.inst, !.eth = s.eth, !.win = s.win, !.tab = s.tab]
 SameSeen(L, s) == /\ L.ph = s.ph /\ L.inst = s.inst /\ L.eth = s.eth /\ L.win = s.win /\ L.tab = s.tab
 
@@ -44,7 +45,7 @@ CNext == /\ l <= Len(T.ev) /\ l' = l + 1 /\ UNCHANGED <<tid, crashes, pre, last>
               /\ loc[e.p].pc \notin Final
               /\ \/ /\ e.a = "crash"
                     /\ LET r == CrashEff(e.p) IN sh' = r.s /\ loc' = [loc EXCEPT ![e.p] = r.l]
-                 \/ /\ e.a # "crash" /\ GateOf[loc[e.p].pc] = e.a
+                 \/ /\ e.a # "crash" /\ Gate(loc[e.p].pc) = e.a
                     /\ CanStep(e.p) /\ e.c \in ChoiceSet(e.p)
                     /\ LET r == Eff(e.p, e.c) IN sh' = r.s /\ loc' = [loc EXCEPT ![e.p] = r.l]
               /\ sh' = ShOf(e.obs)
